@@ -90,6 +90,27 @@ InMem(p)           == p >= 1 /\ p + N * W - 1 <= MemSize
 LoadRes(p, n)      == FromImage(LoadResult(SubSeq(mem, p, p + N * W - 1), n, N, W))
 StoreRes(a, p, n)  == [x \in 1..MemSize |->
                          IF x >= p /\ x < p + Active(n, N) * W THEN Image(V[a])[x - p + 1] ELSE mem[x]]
+\* gather / scatter of the first n lanes (32- and 64-bit lanes): lane i addresses element (p - 1) \div W + index,
+\* the index being lane i of register b read as a signed number.  Only indices that stay inside the memory are in
+\* the domain; inactive lanes (i > n) are never looked at.
+IdxSmallPos(x) == \A j \in 2..W : x[j] = 0
+IdxSmallNeg(x) == \A j \in 2..W : NegW(x)[j] = 0
+IdxSmall(x)    == IF IdxSmallPos(x) THEN TRUE ELSE IdxSmallNeg(x)     \* (IF, not \/: TLC splits a disjunction inside an action into two successors)
+IdxVal(x)      == IF IdxSmallPos(x) THEN x[1] ELSE 0 - NegW(x)[1]
+ElemCount      == MemSize \div W
+Target(p, b, i) == (p - 1) \div W + IdxVal(V[b][i])                   \* 0-based element position
+GSDom(p, b, n) == /\ InMem(p) /\ (p - 1) % W = 0
+                  /\ \A i \in 1..Active(n, N) : /\ IdxSmall(V[b][i])
+                                                 /\ Target(p, b, i) \in 0..(ElemCount - 1)
+ScatterDom(p, b, n) == /\ GSDom(p, b, n)
+                       /\ \A i, j \in 1..Active(n, N) : i # j => Target(p, b, i) # Target(p, b, j)   \* either value could win
+GatherRes(p, b, n) == [i \in 1..N |-> IF i <= Active(n, N) THEN SubSeq(mem, Target(p, b, i) * W + 1, Target(p, b, i) * W + W)
+                                       ELSE ZeroLane]
+ScatterRes(a, p, b, n) ==
+  [x \in 1..MemSize |->
+     LET el == (x - 1) \div W
+         hit == {i \in 1..Active(n, N) : Target(p, b, i) = el}
+     IN IF hit = {} THEN mem[x] ELSE V[a][CHOOSE i \in hit : TRUE][((x - 1) % W) + 1]]
 \* extract<I> / insert<I> (I 0-based)
 VInsertRes(a, I, x) == [V[a] EXCEPT ![I + 1] = x]
 
@@ -128,6 +149,11 @@ Store(a, p, n)        == /\ InMem(p)
                          /\ mem' = StoreRes(a, p, n)
                          /\ last' = [a |-> "store", f |-> "store", d |-> <<p, n>>, x |-> <<a>>, pre |-> Pre] /\ depth' = depth + 1
                          /\ UNCHANGED <<V, K, env>>
+Gather(d, p, b, n)    == GSDom(p, b, n) /\ PutV(d, GatherRes(p, b, n), "gather", "gather", <<p, b, n>>)
+Scatter(a, p, b, n)   == /\ ScatterDom(p, b, n)
+                         /\ mem' = ScatterRes(a, p, b, n)
+                         /\ last' = [a |-> "scatter", f |-> "scatter", d |-> <<p, n>>, x |-> <<a, b>>, pre |-> Pre] /\ depth' = depth + 1
+                         /\ UNCHANGED <<V, K, env>>
 \* the program itself changes the rounding mode: the ONLY action that may (C11)
 SetEnv(m)             == env' = m /\ Note("setenv", "setenv", "env", <<m>>) /\ UNCHANGED <<V, K, mem>>
 
@@ -152,7 +178,7 @@ Spec == Init /\ [][Next]_vars
 (***************************************************************************)
 (* Properties of the composed machine (state invariants over the ghost).   *)
 (***************************************************************************)
-VecActs == BinOps \cup UnOps \cup ShiftOps \cup {"blend", "keep", "clear", "negate", "set_bits", "b2v", "load",
+VecActs == BinOps \cup UnOps \cup ShiftOps \cup {"blend", "keep", "clear", "negate", "set_bits", "b2v", "load", "gather",
                                                   "setlane", "setvec", "insert"}
 MaskActs == CmpOps \cup {"m_and", "m_or", "m_xor", "m_not", "m_insert", "m_set", "nz"}
 \* (Lane independence needs no invariant here: every vector action is *defined* lane-wise,
@@ -162,7 +188,7 @@ MaskActs == CmpOps \cup {"m_and", "m_or", "m_xor", "m_not", "m_insert", "m_set",
 Frame ==
   \* ("force" is taken by the trace specification only: the state is set to what the real objects show)
   /\ (last.a \notin {"init", "setenv", "force"} => env = last.pre.env)
-  /\ (last.a \notin {"init", "store", "force"} => mem = last.pre.mem)
+  /\ (last.a \notin {"init", "store", "scatter", "force"} => mem = last.pre.mem)
   /\ (last.a = "store" =>
         LET p == last.d[1]  n == last.d[2] IN
         \A x \in 1..MemSize : (x < p \/ x >= p + Active(n, N) * W) => mem[x] = last.pre.mem[x])
